@@ -66,14 +66,7 @@ def gen_history(seed, tier="quick", zoo_filter=None, faults_on=True):
     npts = rng.randint(2, 4)
     points = [model.nominal_point()] if rng.random() < 0.5 else []
     while len(points) < npts:
-        pt = {}
-        # a point changes a random subset of inputs, others stay nominal (more cache-sharing paths)
-        for inp in model.inputs:
-            if rng.random() < 0.6:
-                pt[inp.name] = inp.draw(nprng, rng)
-            else:
-                pt[inp.name] = inp.nom.copy()
-        points.append(pt)
+        points.append(draw_point(model, points, rng, nprng))
     enabled = {k: (faults_on and rng.random() < 0.7) for k in FAULT_KINDS}
     n_ops = rng.randint(4, 14)
     w = {
@@ -150,6 +143,36 @@ def gen_history(seed, tier="quick", zoo_filter=None, faults_on=True):
         "enabled_faults": enabled,
     }
     return hist
+
+
+def draw_point(model, points, rng, nprng):
+    """A new admissible point. Three modes, because history defects hide in different neighbourhoods:
+    independent (a random subset of inputs redrawn, others nominal); sibling (an existing pool point
+    with one or two inputs redrawn - exposes memoisation keyed on too few inputs); nearby (an existing
+    pool point perturbed by 1e-7..1e-3 relative, as line searches and finite differences do - exposes
+    'close enough' cache validation)."""
+    r = rng.random()
+    if points and r < 0.3:
+        base = rng.choice(points)
+        pt = {k: np.array(v, dtype=float, copy=True) for k, v in base.items()}
+        for inp in rng.sample(model.inputs, min(len(model.inputs), rng.randint(1, 2))):
+            pt[inp.name] = inp.draw(nprng, rng)
+        return pt
+    if points and r < 0.45:
+        base = rng.choice(points)
+        eps = 10.0 ** rng.uniform(-7, -3)
+        pt = {}
+        for inp in model.inputs:
+            v = np.array(base[inp.name], dtype=float, copy=True)
+            if rng.random() < 0.5:
+                scale = np.maximum(np.abs(v), 1e-3 * max(1.0, float(np.max(np.abs(inp.nom))) if inp.nom.size else 1.0))
+                v = v + eps * scale * nprng.uniform(-1.0, 1.0, size=v.shape)
+            pt[inp.name] = v
+        return pt
+    pt = {}
+    for inp in model.inputs:
+        pt[inp.name] = inp.draw(nprng, rng) if rng.random() < 0.6 else inp.nom.copy()
+    return pt
 
 
 def _subset(rng, names, kmax=None):
